@@ -64,7 +64,7 @@ def main():
             rp = json.load(f)
         d = core.run_cases_inproc(mod, a.tier, a.seed, [rp["case"]])
         merged = core.merge([d])
-        return core.finish(mod, a.tier, a.seed, merged, 0.0, [], write_evidence=False)
+        return core.finish(mod, a.tier, a.seed, merged, 0.0, [], write_evidence=False, replay=True)
 
     cases = mod.cases(a.tier, a.seed)
 
